@@ -172,7 +172,7 @@ def accessReasonPre (g : Global) (r : Req) : Reason :=
 device and access checks. -/
 def wrapPre (reason : Global → Req → Reason) (g : Global) (r : Req) : Out :=
   if r.port == 0 then { effects := [], err := false, why := "spoof" }
-  else if r.ecsBad then { effects := [.formerr], err := true, why := "formerr" }
+  else if r.ecsBad then { effects := [.formerr], err := false, why := "formerr" }
   else
     match r.dev with
     | .unknownDedicated => { effects := [], err := false, why := "unknown-dedicated" }
@@ -196,7 +196,7 @@ def wrapDevFirst (g : Global) (r : Req) : Out :=
       | .globalHost => { effects := [], err := false, why := "global-host" }
       | .profile => { effects := [], err := false, why := "profile" }
       | .pass =>
-        if r.ecsBad then { effects := [.formerr], err := true, why := "formerr" }
+        if r.ecsBad then { effects := [.formerr], err := false, why := "formerr" }
         else { effects := [.next], err := false, why := "next", info := some (reqInfo r) }
 
 /-- `wire` for an arbitrary handler. -/
